@@ -102,7 +102,8 @@ def prove(pid, extra_targets=()):
     rc, out = sh([os.path.join(ROOT, 'tools', 'build_coq.sh')] + targets)
     if rc != 0:
         raise Broken('coq build failed for %s' % ' '.join(targets), out[-3000:])
-    rc, out = sh('ulimit -v 16000000 2>/dev/null; exec coqc -Q "%s" BiomV "%s"' % (COQ, props), cwd=COQ, timeout=900)
+    # (shared lock: wait for any build that is rewriting .vo files, let other readers proceed)
+    rc, out = sh('ulimit -v 16000000 2>/dev/null; exec flock -s "%s/.buildlock" coqc -Q "%s" BiomV "%s"' % (COQ, COQ, props), cwd=COQ, timeout=3600)
     if rc != 0:
         raise Broken('Props/%s.v no longer checks' % pid, out[-3000:])
     src = strip_comments(open(props).read())
@@ -141,8 +142,8 @@ def prove(pid, extra_targets=()):
     chk = None
     if os.environ.get('VERIF_COQCHK') == '1':
         # independent re-check of the compiled cone with coqchk (thorough tier): lists every axiom of every loaded library
-        rc2, out2 = sh('ulimit -v 16000000 2>/dev/null; cd "%s" && timeout 1500 coqchk -silent -o -Q . BiomV BiomV.Props.%s' % (COQ, pid),
-                       cwd=COQ, timeout=1600)
+        rc2, out2 = sh('ulimit -v 16000000 2>/dev/null; cd "%s" && flock -s .buildlock timeout 1500 coqchk -silent -o -Q . BiomV BiomV.Props.%s' % (COQ, pid),
+                       cwd=COQ, timeout=5000)
         if rc2 != 0:
             raise Broken('coqchk rejected the compiled cone of Props/%s' % pid, out2[-3000:])
         m = re.search(r'\* Axioms:\s*(.*?)(?:\n\s*\n|\n\* |\Z)', out2, re.S)
@@ -189,7 +190,7 @@ def vm_crosscheck(pid, trees, outs, k=12, max_chars=20000):
         fh.write('Definition ins : list Tree := [\n  ' + ';\n  '.join(coq_tree(trees[i]) for i in idx) + '].\n')
         fh.write('Definition outs : list Tree := [\n  ' + ';\n  '.join(coq_tree(outs[i]) for i in idx) + '].\n')
         fh.write('Goal tree_eqb (L (map Run%s.run ins)) (L outs) = true. Proof. vm_compute. reflexivity. Qed.\n' % pid)
-    rc, out = sh('ulimit -s unlimited 2>/dev/null; timeout 900 coqc -Q "%s" BiomV "%s"' % (COQ, f), cwd=d, timeout=1000)
+    rc, out = sh('ulimit -s unlimited 2>/dev/null; flock -s "%s/.buildlock" timeout 900 coqc -Q "%s" BiomV "%s"' % (COQ, COQ, f), cwd=d, timeout=3600)
     if rc != 0:
         raise Broken('vm_compute cross-check of the extracted model failed for %s' % pid, out[-2000:])
     return len(idx)
